@@ -324,8 +324,8 @@ Lemma np_setnext ph n ph' : next_phase ph (MSetNext n) = Some ph' ->
 Proof.
   intros H. destruct ph; cbn in H;
     repeat match type of H with context [if ?b then _ else _] => destruct b eqn:? end;
-    try discriminate H; inversion H; subst.
-  match goal with E : (_ =? _) = true |- _ => apply N.eqb_eq in E end. subst. eauto 8.
+    try discriminate H; inversion H; subst;
+    match goal with E : (_ =? _) = true |- _ => apply N.eqb_eq in E end; subst; eauto 8.
 Qed.
 Lemma np_none ph m ph' : next_phase ph m = Some ph' ->
   match m with MSetNextLocked _ | MUnknown => False | _ => True end.
@@ -478,4 +478,418 @@ Section Step.
     - intros c' Hfc. rewrite Hc, Hn. rewrite Hf in Hfc. assert (c' <> c) by lia.
       rewrite upd_other by assumption. apply (i_fresh _ Iv). exact Hfc.
   Qed.
+
+  (* early return (`?`) *)
+  Lemma idle_abort_inv : holds (p_ph p) = false -> Inv (abort st a p r).
+  Proof using All.
+    intros Hh. unfold abort.
+    match goal with |- Inv ?s => apply (nonholder_quiet_step st s a p (aborted p r) Iv Hp Hh) end; try reflexivity.
+    - right. right. split; reflexivity.
+    - proj. apply (wf_skip r ph' Hwr).
+    - proj. intros Hu. apply Hus_tail. apply uses_sess_skip. exact Hu.
+  Qed.
+
+  Lemma holder_abort_inv sd :
+    holds (p_ph p) = true -> (forall c, busy_on p c -> False) ->
+    Inv (abort (set_store st (s_log st) sd (s_next st) (s_index st) (s_fresh st) (s_mu st)) a p r).
+  Proof using All.
+    intros Hh Hnb. unfold abort.
+    match goal with |- Inv ?s => apply (holder_quiet_step s (aborted p r) Hh) end; try reflexivity.
+    - proj. rewrite (mu_is_me Hh). apply release_self.
+    - proj. apply (wf_skip r ph' Hwr).
+    - proj. apply uses_sess_skip.
+    - intros c Hc. destruct (Hnb c Hc).
+  Qed.
 End Step.
+
+(* ---------- every continuity micro-step preserves the invariant ---------- *)
+Ltac pa Hph := unfold phase_after; rewrite Hph; cbn [next_phase].
+
+Ltac sp3 Hnp Hph Hph' := proj; rewrite ?(phase_after_eq _ _ _ Hnp), ?Hph', ?Hph; cbn [holds tholds].
+
+Ltac close_local Hnp Hph Hph' Hmu Hh Hwr Hco :=
+  first [ sp3 Hnp Hph Hph'; apply Hmu; exact Hh
+        | sp3 Hnp Hph Hph'; rewrite <- Hph'; exact Hwr
+        | sp3 Hnp Hph Hph'; reflexivity
+        | sp3 Hnp Hph Hph'; tauto
+        | unfold cont_ok in *; sp3 Hnp Hph Hph'; rewrite Hph in Hco; exact Hco
+        | intros ?c0; unfold busy_on; rewrite Hph; sp3 Hnp Hph Hph'; tauto ].
+Ltac holder_local Iv Hp Hr Hnp Hwr Hh Hmu Hco Hph Hph' p' :=
+  match goal with |- Inv ?s => apply (holder_quiet_step _ _ _ _ _ _ Iv Hp Hr Hnp Hwr s p' Hh) end;
+  try reflexivity; close_local Hnp Hph Hph' Hmu Hh Hwr Hco.
+
+Lemma exec_m_inv_cont st a p m r ph' :
+  Inv st -> s_procs st a = Some p -> p_rem p = m :: r ->
+  next_phase (p_ph p) m = Some ph' -> wf_from ph' r = true ->
+  match m with MSessEmit _ | MTaskLock | MTaskChoose | MTaskAppend _ | MTaskUnlock => False | _ => True end ->
+  Inv (exec_m st a p m r).
+Proof.
+  intros Iv Hp Hr Hnp Hwr Hm.
+  pose proof (i_cont _ Iv _ _ Hp) as Hco.
+  pose proof (busy_is_me st a p _ r ph' Iv Hp Hr Hnp Hwr) as Hbusy.
+  pose proof (mu_is_me st a p _ r ph' Iv Hp Hr Hnp Hwr) as Hmu.
+  unfold exec_m. destruct m; try (exfalso; exact Hm); cbn [exec_m_gen].
+  - (* MTarget *)
+    destruct (np_idle _ _ _ Hnp) as [Hph Hph'].
+    match goal with |- Inv ?s => apply (idle_local_step st a p _ r ph' Iv Hp Hr Hnp Hwr s (pop p (MTarget c) r (Some c) (p_seq p) (p_last p) (p_child p) (p_cnt p))) end;
+      try reflexivity; try (rewrite Hph; reflexivity); try (rewrite Hph; discriminate).
+    + congruence.
+    + proj. pa Hph. congruence.
+  - (* MPickNewest *)
+    destruct (np_idle _ _ _ Hnp) as [Hph Hph'].
+    destruct (hd_error (rev (s_index st))) as [c|].
+    + match goal with |- Inv ?s => apply (idle_local_step st a p _ r ph' Iv Hp Hr Hnp Hwr s (pop p MPickNewest r (Some c) (p_seq p) (p_last p) (p_child p) (p_cnt p))) end;
+        try reflexivity; try (rewrite Hph; reflexivity); try (rewrite Hph; discriminate).
+      * congruence.
+      * proj. pa Hph. congruence.
+    + apply (idle_abort_inv st a p _ r ph' Iv Hp Hr Hnp Hwr). rewrite Hph. reflexivity.
+  - (* MLock *)
+    destruct (np_lock _ _ Hnp) as [Hph Hph'].
+    destruct (s_mu st) eqn:Emu; [exact Iv|].
+    match goal with |- Inv ?s => apply (nonholder_quiet_step st s a p (pop_same p MLock r) Iv Hp) end; try reflexivity.
+    + rewrite Hph. reflexivity.
+    + right. left. proj. pa Hph. auto.
+    + proj. pa Hph. rewrite <- Hph'. exact Hwr.
+    + apply task_ok_idle. proj. pa Hph. reflexivity.
+    + proj. rewrite Hr. apply uses_sess_tail.
+  - (* MChoose *)
+    destruct (np_choose _ _ Hnp) as [Hph Hph'].
+    assert (Hh : holds (p_ph p) = true) by (rewrite Hph; reflexivity).
+    assert (Hnb : forall c, busy_on p c -> False) by (intros c; unfold busy_on; rewrite Hph; tauto).
+    pose proof (holder_abort_inv st a p _ r ph' Iv Hp Hr Hnp Hwr) as Habort.
+    destruct (p_cid p) as [c|] eqn:Ecid; [|apply (Habort (s_side st) Hh Hnb)].
+    destruct (s_next st c) as [n|] eqn:En.
+    + (* cached *)
+      assert (Hn : n = cnext st c).
+      { destruct (i_next _ Iv _ _ En) as [E|E]; [exact E|]. destruct (Hnb c (Hbusy c Hh E)). }
+      match goal with |- Inv ?s => apply (holder_quiet_step st a p _ r ph' Iv Hp Hr Hnp Hwr s (pop p MChoose r (Some c) (Some n) (p_last p) (p_child p) (p_cnt p)) Hh) end; try reflexivity.
+      * sp3 Hnp Hph Hph'. apply Hmu. exact Hh.
+      * sp3 Hnp Hph Hph'. rewrite <- Hph'. exact Hwr.
+      * sp3 Hnp Hph Hph'. reflexivity.
+      * sp3 Hnp Hph Hph'. tauto.
+      * unfold cont_ok. sp3 Hnp Hph Hph'. exists c, n. auto.
+      * intros c' Hc'. destruct (Hnb c' Hc').
+    + (* cold cache: load_next_seq_for *)
+      destruct (load_next_spec st c (i_valid _ Iv)) as [[sd [El Hnz]]|[El Hz]]; rewrite El.
+      2:{ apply (Habort (s_side st) Hh Hnb). }
+      assert (Hlt : c < s_fresh st).
+      { destruct (N.lt_ge_cases c (s_fresh st)) as [H|H]; [exact H|]. destruct (i_fresh _ Iv c H) as [H0 _]. congruence. }
+      match goal with |- Inv ?s => apply (holder_setnext_step st a p _ r ph' Iv Hp Hr Hnp Hwr s (pop p MChoose r (Some c) (Some (cnext st c)) (p_last p) (p_child p) (p_cnt p)) c (cnext st c) Hh) end; try reflexivity; try assumption.
+      * rewrite Hph'. reflexivity.
+      * rewrite Hph'. reflexivity.
+      * sp3 Hnp Hph Hph'. congruence.
+      * unfold cont_ok. sp3 Hnp Hph Hph'. exists c, (cnext st c). repeat split; try reflexivity. apply upd_same.
+      * intros c' Hc'. destruct (Hnb c' Hc').
+  - (* MLogAppend *)
+    destruct (np_logappend _ _ _ _ Hnp) as [Hph [Hph' Hct]].
+    assert (Hh : holds (p_ph p) = true) by (rewrite Hph; reflexivity).
+    assert (Hnb : forall c, busy_on p c -> False) by (intros c; unfold busy_on; rewrite Hph; tauto).
+    unfold cont_ok in Hco. rewrite Hph in Hco. destruct Hco as [c [n [Ec [Es [En Hn]]]]].
+    rewrite Ec, Es.
+    assert (Hlt : c < s_fresh st).
+    { destruct (N.lt_ge_cases c (s_fresh st)) as [H|H]; [exact H|]. destruct (i_fresh _ Iv c H) as [_ H0]. congruence. }
+    match goal with |- Inv ?s => apply (holder_append_step st a p _ r ph' Iv Hp Hr Hnp Hwr s (pop p (MLogAppend t ar) r (Some c) (Some n) (Some (mk_frame st c n t ar)) (p_child p) (p_cnt p)) c (mk_frame st c n t ar) Hh) end; try reflexivity; try assumption.
+    + rewrite Hph'. reflexivity.
+    + rewrite Hph'. reflexivity.
+    + apply is_cont_kind. exact Hct.
+    + sp3 Hnp Hph Hph'. congruence.
+    + unfold cont_ok. sp3 Hnp Hph Hph'. exists c, n, (mk_frame st c n t ar). repeat split; try reflexivity; try assumption.
+      unfold cnext. proj. rewrite (snoc_cont_same (mk_frame st c n t ar)) by (apply is_cont_kind; exact Hct).
+      rewrite Hn. reflexivity.
+    + unfold busy_on. sp3 Hnp Hph Hph'. reflexivity.
+    + intros c' Hc'. destruct (Hnb c' Hc').
+  - (* MSidecar *)
+    destruct (p_last p) as [f|];
+      (destruct (np_sidecar _ _ Hnp) as [[sc [Hph Hph']]|[k [sc [nx [Hph Hph']]]]];
+       (assert (Hh : holds (p_ph p) = true) by (rewrite Hph; reflexivity));
+       holder_local Iv Hp Hr Hnp Hwr Hh Hmu Hco Hph Hph' (pop_same p MSidecar r)).
+  - (* MBcast *)
+    destruct (np_bcast _ _ Hnp) as [Hph' [[sc Hph]|[Hph|[[k [sc [nx Hph]]]|Hph]]]].
+    1-3: (assert (Hh : holds (p_ph p) = true) by (rewrite Hph; reflexivity));
+         rewrite Hph in Hph'; holder_local Iv Hp Hr Hnp Hwr Hh Hmu Hco Hph Hph' (pop_same p MBcast r).
+    match goal with |- Inv ?s => apply (idle_local_step st a p _ r ph' Iv Hp Hr Hnp Hwr s (pop_same p MBcast r)) end;
+      try reflexivity; try (rewrite Hph; reflexivity); try congruence.
+    proj. rewrite (phase_after_eq _ _ _ Hnp). reflexivity.
+  - (* MAdvance *)
+    destruct (np_advance _ _ Hnp) as [Hph Hph'].
+    assert (Hh : holds (p_ph p) = true) by (rewrite Hph; reflexivity).
+    unfold cont_ok in Hco. rewrite Hph in Hco. destruct Hco as [c [n [f [Ec [Es [En [Hn [El Hs]]]]]]]].
+    rewrite Ec, Es.
+    assert (Hlt : c < s_fresh st).
+    { destruct (N.lt_ge_cases c (s_fresh st)) as [H|H]; [exact H|]. destruct (i_fresh _ Iv c H) as [_ H0]. congruence. }
+    match goal with |- Inv ?s => apply (holder_setnext_step st a p _ r ph' Iv Hp Hr Hnp Hwr s (pop p MAdvance r (Some c) None (p_last p) (p_child p) (p_cnt p)) c (n + 1) Hh) end; try reflexivity; try assumption.
+    + rewrite Hph'. reflexivity.
+    + rewrite Hph'. reflexivity.
+    + congruence.
+    + sp3 Hnp Hph Hph'. reflexivity.
+    + unfold cont_ok. sp3 Hnp Hph Hph'. exact I.
+    + intros c'. unfold busy_on. rewrite Hph, Ec. congruence.
+  - (* MUnlock *)
+    destruct (np_unlock _ _ Hnp) as [Hph' Hcases].
+    assert (Hh : holds (p_ph p) = true) by (destruct Hcases as [E|[E|[k E]]]; rewrite E; reflexivity).
+    assert (Hnb : forall c, busy_on p c -> False) by (intros c; unfold busy_on; destruct Hcases as [E|[E|[k E]]]; rewrite E; tauto).
+    match goal with |- Inv ?s => apply (holder_quiet_step st a p _ r ph' Iv Hp Hr Hnp Hwr s (pop p MUnlock r (p_cid p) None None (p_child p) (p_cnt p)) Hh) end; try reflexivity.
+    + proj. rewrite (phase_after_eq _ _ _ Hnp), Hph'. cbn [holds]. rewrite (Hmu Hh). apply release_self.
+    + proj. rewrite (phase_after_eq _ _ _ Hnp). exact Hwr.
+    + proj. rewrite (phase_after_eq _ _ _ Hnp), Hph'. reflexivity.
+    + proj. tauto.
+    + unfold cont_ok. proj. rewrite (phase_after_eq _ _ _ Hnp), Hph'. exact I.
+    + intros c Hc. destruct (Hnb c Hc).
+  - (* MAlloc *)
+    destruct (np_alloc _ _ Hnp) as [Hph Hph'].
+    assert (Hh : holds (p_ph p) = true) by (rewrite Hph; reflexivity).
+    assert (Hnb : forall c, busy_on p c -> False) by (intros c; unfold busy_on; rewrite Hph; tauto).
+    match goal with |- Inv ?s => apply (holder_quiet_step st a p _ r ph' Iv Hp Hr Hnp Hwr s (pop p MAlloc r (p_cid p) (p_seq p) (p_last p) (Some (s_fresh st)) (p_cnt p)) Hh) end; try reflexivity.
+    + proj. lia.
+    + sp3 Hnp Hph Hph'. apply Hmu. exact Hh.
+    + sp3 Hnp Hph Hph'. rewrite <- Hph'. exact Hwr.
+    + sp3 Hnp Hph Hph'. reflexivity.
+    + sp3 Hnp Hph Hph'. tauto.
+    + unfold cont_ok. sp3 Hnp Hph Hph'. exists (s_fresh st).
+      destruct (i_fresh _ Iv (s_fresh st) (N.le_refl _)) as [H0 H1].
+      repeat split; try assumption; try reflexivity. lia.
+    + intros c Hc. destruct (Hnb c Hc).
+  - (* MLogAppendFixed *)
+    destruct (np_fixed _ _ _ _ _ Hnp) as [Hct Hcases].
+    assert (Hh : holds (p_ph p) = true) by (destruct Hcases as [[E _]|[k [sc [nx [E _]]]]]; rewrite E; reflexivity).
+    assert (Hc : exists c, p_child p = Some c /\ c < s_fresh st /\ cnext st c = n /\ (forall c', busy_on p c' -> c' = c)).
+    { unfold cont_ok in Hco. destruct Hcases as [[E [-> _]]|[k [sc [nx [E [-> _]]]]]]; rewrite E in Hco.
+      - destruct Hco as [c [H1 [H2 [H3 H4]]]]. exists c. repeat split; try assumption.
+        intros c'. unfold busy_on. rewrite E. tauto.
+      - destruct Hco as [c [H1 [H2 [H3 [H4 H5]]]]]. exists c. repeat split; try assumption.
+        intros c'. unfold busy_on. rewrite E. destruct nx; [tauto|]. congruence. }
+    destruct Hc as [c [Ec [Hlt [Hn Hbo]]]]. rewrite Ec.
+    assert (Hph' : ph' = PChild (n + 1) false false).
+    { destruct Hcases as [[_ [-> E]]|[k [sc [nx [_ [-> E]]]]]]; exact E. }
+    match goal with |- Inv ?s => apply (holder_append_step st a p _ r ph' Iv Hp Hr Hnp Hwr s (pop p (MLogAppendFixed n t ar) r (p_cid p) (p_seq p) (Some (mk_frame st c n t ar)) (Some c) (p_cnt p)) c (mk_frame st c n t ar) Hh) end; try reflexivity; try assumption.
+    + rewrite Hph'. reflexivity.
+    + rewrite Hph'. reflexivity.
+    + apply is_cont_kind. exact Hct.
+    + cbn. congruence.
+    + proj. apply (phase_after_eq _ _ _ Hnp).
+    + unfold cont_ok. proj. rewrite (phase_after_eq _ _ _ Hnp), Hph'. exists c. repeat split; try reflexivity.
+      * lia.
+      * unfold cnext. proj. rewrite (snoc_cont_same (mk_frame st c n t ar)) by (apply is_cont_kind; exact Hct).
+        unfold cnext in Hn. cbn [sid mk_frame]. rewrite Hn. reflexivity.
+      * discriminate.
+      * intros f Hf. inversion Hf. reflexivity.
+    + unfold busy_on. proj. rewrite (phase_after_eq _ _ _ Hnp), Hph'. reflexivity.
+  - (* MIndexInsert *)
+    destruct (np_index _ _ Hnp) as [k [sc [nx [Hph Hph']]]].
+    assert (Hh : holds (p_ph p) = true) by (rewrite Hph; reflexivity).
+    destruct (p_child p) as [c|] eqn:Ec.
+    + holder_local Iv Hp Hr Hnp Hwr Hh Hmu Hco Hph Hph' (pop_same p MIndexInsert r).
+    + exfalso. unfold cont_ok in Hco. rewrite Hph in Hco. destruct Hco as [c [H1 _]]. congruence.
+  - (* MSetNext *)
+    destruct (np_setnext _ _ _ Hnp) as [k [sc [nx [Hph [-> Hph']]]]].
+    assert (Hh : holds (p_ph p) = true) by (rewrite Hph; reflexivity).
+    unfold cont_ok in Hco. rewrite Hph in Hco. destruct Hco as [c [Ec [Hlt [Hn [Hnx Hl]]]]].
+    rewrite Ec.
+    match goal with |- Inv ?s => apply (holder_setnext_step st a p _ r ph' Iv Hp Hr Hnp Hwr s (pop_same p (MSetNext k) r) c k Hh) end; try reflexivity; try assumption.
+    + rewrite Hph'. reflexivity.
+    + rewrite Hph'. reflexivity.
+    + congruence.
+    + proj. apply (phase_after_eq _ _ _ Hnp).
+    + unfold cont_ok. proj. rewrite (phase_after_eq _ _ _ Hnp), Hph'. exists c. repeat split; try assumption.
+      intros _. apply upd_same.
+    + intros c'. unfold busy_on. rewrite Hph. destruct nx; [tauto|]. congruence.
+  - (* MSetNextLocked *) destruct (np_none _ _ _ Hnp).
+  - (* MRead *)
+    destruct (np_idle _ _ _ Hnp) as [Hph Hph'].
+    destruct (p_cid p) as [c|].
+    all: match goal with |- Inv ?s => apply (idle_local_step st a p _ r ph' Iv Hp Hr Hnp Hwr s (pop_same p MRead r)) end;
+      try reflexivity; try (rewrite Hph; reflexivity); try (rewrite Hph; discriminate); try congruence;
+      try (proj; apply (phase_after_eq _ _ _ Hnp)).
+  - (* MUnknown *) destruct (np_none _ _ _ Hnp).
+Qed.
+
+(* ---------- session and task emitters ---------- *)
+Lemma task_ok_other st st' b pb t0 :
+  task_ok st b pb -> (forall t, tnext st' t = tnext st t \/ t = t0) ->
+  (forall t, t <> t0 -> s_tmu st' t = s_tmu st t /\ s_tcnt st' t = s_tcnt st t) ->
+  (tholds (p_ph pb) = true -> p_sess pb <> t0) -> task_ok st' b pb.
+Proof.
+  intros H Ht Hu Hne. unfold task_ok in *.
+  destruct (p_ph pb); try exact I;
+    (assert (Hn : p_sess pb <> t0) by (apply Hne; reflexivity));
+    destruct (Hu _ Hn) as [-> ->]; (destruct (Ht (p_sess pb)) as [->|E]; [exact H|congruence]).
+Qed.
+
+Lemma emit_step st st' a p p' :
+  Inv st -> s_procs st a = Some p -> holds (p_ph p) = false -> holds (p_ph p') = false ->
+  s_procs st' = upd (s_procs st) a (Some p') ->
+  s_next st' = s_next st -> (forall c, cnext st' c = cnext st c) -> s_fresh st <= s_fresh st' ->
+  s_mu st' = s_mu st -> Valid (s_log st') ->
+  wf_from (p_ph p') (p_rem p') = true ->
+  (forall b pb, b <> a -> s_procs st b = Some pb -> task_ok st' b pb) -> task_ok st' a p' ->
+  (forall t, s_tmu st' t = None -> s_tcnt st' t = tnext st' t) ->
+  (forall b pb, b <> a -> s_procs st b = Some pb -> sess_ok st' pb) -> sess_ok st' p' ->
+  p_sess p' = p_sess p -> (uses_sess (p_rem p') = true -> uses_sess (p_rem p) = true) ->
+  Inv st'.
+Proof.
+  intros Iv Hp Hh Hh' Hprocs Hn Hc Hf Hmu HV Hwf Hto Hta Hts Hso Hsa Hse Hus.
+  apply (nonholder_step st st' a p p' Iv Hp Hh Hprocs); try assumption.
+  - intros c. rewrite Hn. reflexivity.
+  - intros b pb _ Hb Hhb. rewrite Hmu. apply (i_lock _ Iv _ _ Hb Hhb).
+  - intros E. congruence.
+  - apply cont_ok_nonholding. exact Hh'.
+Qed.
+
+Lemma task_quiet_step st st' a p p' :
+  Inv st -> s_procs st a = Some p -> holds (p_ph p) = false -> holds (p_ph p') = false ->
+  s_procs st' = upd (s_procs st) a (Some p') ->
+  s_log st' = s_log st -> s_next st' = s_next st -> s_fresh st' = s_fresh st -> s_mu st' = s_mu st ->
+  (forall t, t <> p_sess p -> s_tmu st' t = s_tmu st t /\ s_tcnt st' t = s_tcnt st t) ->
+  (s_tmu st (p_sess p) = None \/ s_tmu st (p_sess p) = Some a) ->
+  wf_from (p_ph p') (p_rem p') = true -> task_ok st' a p' ->
+  (s_tmu st' (p_sess p) = None -> s_tcnt st' (p_sess p) = tnext st (p_sess p)) ->
+  p_sess p' = p_sess p -> p_cnt p' = p_cnt p -> (uses_sess (p_rem p') = true -> uses_sess (p_rem p) = true) ->
+  Inv st'.
+Proof.
+  intros Iv Hp Hh Hh' Hprocs Hl Hn Hf Hmu Hu Hfree Hwf Hta Hts Hse Hcn Hus.
+  assert (Ht : forall t, tnext st' t = tnext st t) by (intros t; unfold tnext; rewrite Hl; reflexivity).
+  assert (Hs : forall t, snext st' t = snext st t) by (intros t; unfold snext; rewrite Hl; reflexivity).
+  apply (emit_step st st' a p p' Iv Hp Hh Hh' Hprocs); try assumption.
+  - intros c. unfold cnext. rewrite Hl. reflexivity.
+  - rewrite Hf. lia.
+  - rewrite Hl. apply (i_valid _ Iv).
+  - intros b pb Hne Hb. apply (task_ok_other st st' b pb (p_sess p)); [apply (i_task _ Iv _ _ Hb)|auto|exact Hu|].
+    intros Hth E. pose proof (i_task _ Iv _ _ Hb) as Hb'. unfold task_ok in Hb'.
+    destruct (p_ph pb); try discriminate Hth; rewrite E in Hb'; destruct Hb' as [Hb' _]; destruct Hfree; congruence.
+  - intros t Ht0. rewrite Ht. destruct (N.eq_dec t (p_sess p)) as [->|Hne]; [apply Hts; exact Ht0|].
+    destruct (Hu t Hne) as [E1 E2]. rewrite E1 in Ht0. rewrite E2. apply (i_tasks _ Iv _ Ht0).
+  - intros b pb _ Hb. apply (sess_ok_ext st); [exact Hs|apply (i_sess _ Iv _ _ Hb)].
+  - intros Hu'. rewrite Hcn, Hse, Hs. apply (i_sess _ Iv _ _ Hp). apply Hus. exact Hu'.
+Qed.
+
+Lemma exec_m_inv_emit st a p m r ph' :
+  Inv st -> s_procs st a = Some p -> p_rem p = m :: r ->
+  next_phase (p_ph p) m = Some ph' -> wf_from ph' r = true ->
+  match m with MSessEmit _ | MTaskLock | MTaskChoose | MTaskAppend _ | MTaskUnlock => True | _ => False end ->
+  Inv (exec_m st a p m r).
+Proof.
+  intros Iv Hp Hr Hnp Hwr Hm.
+  pose proof (i_task _ Iv _ _ Hp) as Hta.
+  assert (Hlock : forall st', s_mu st' = s_mu st -> forall b pb, b <> a -> s_procs st b = Some pb -> holds (p_ph pb) = true -> s_mu st' = Some b).
+  { intros st' E b pb _ Hb Hhb. rewrite E. apply (i_lock _ Iv _ _ Hb Hhb). }
+  assert (Hother : forall b pb, b <> a -> s_procs st b = Some pb -> tholds (p_ph pb) = true ->
+                   s_tmu st (p_sess p) = None \/ s_tmu st (p_sess p) = Some a -> p_sess pb <> p_sess p).
+  { intros b pb Hne Hb Hth Hfree E. pose proof (i_task _ Iv _ _ Hb) as Hb'. unfold task_ok in Hb'.
+    destruct (p_ph pb); try discriminate Hth; rewrite E in Hb'; destruct Hb' as [Hb' _]; destruct Hfree; congruence. }
+  unfold exec_m. destruct m; try (exfalso; exact Hm); cbn [exec_m_gen].
+  - (* MSessEmit *)
+    destruct (np_sess _ _ _ Hnp) as [Hph [Hph' Hst]].
+    set (f := mk_frame st (p_sess p) (p_cnt p) t []).
+    assert (Hfk : fkind f = KSession) by (apply is_sess_kind; exact Hst).
+    assert (Hus : uses_sess (p_rem p) = true) by (rewrite Hr; reflexivity).
+    match goal with |- Inv ?s => apply (emit_step st s a p (pop p (MSessEmit t) r (p_cid p) (p_seq p) (p_last p) (p_child p) (p_cnt p + 1)) Iv Hp) end; try reflexivity.
+    + rewrite Hph. reflexivity.
+    + proj. rewrite (phase_after_eq _ _ _ Hnp), Hph'. reflexivity.
+    + intros c. unfold cnext. proj. apply snoc_other_kind. rewrite Hfk. discriminate.
+    + proj. lia.
+    + proj. apply Valid_snoc_intro; [apply (i_valid _ Iv)|]. rewrite Hfk. apply (i_sess _ Iv _ _ Hp Hus).
+    + proj. rewrite (phase_after_eq _ _ _ Hnp). exact Hwr.
+    + intros b pb _ Hb. apply (task_ok_ext st); try reflexivity; [|apply (i_task _ Iv _ _ Hb)].
+      intros t0. unfold tnext. proj. apply snoc_other_kind. rewrite Hfk. discriminate.
+    + apply task_ok_idle. proj. rewrite (phase_after_eq _ _ _ Hnp), Hph'. reflexivity.
+    + intros t0 Ht0. proj_in Ht0. proj. unfold tnext. proj. rewrite snoc_other_kind by (rewrite Hfk; discriminate).
+      apply (i_tasks _ Iv _ Ht0).
+    + intros b pb Hne Hb Hu. unfold snext. proj.
+      rewrite snoc_same_kind_other; [apply (i_sess _ Iv _ _ Hb Hu)|].
+      cbn [sid f mk_frame]. intros E. apply (i_sessu _ Iv a b p pb); auto.
+    + intros Hu. proj. unfold snext. proj.
+      pose proof (next_of_snoc_same f (s_log st)) as E. rewrite Hfk in E. cbn [sid f mk_frame] in E. rewrite E.
+      rewrite (i_sess _ Iv _ _ Hp Hus). reflexivity.
+    + proj. rewrite Hr. apply uses_sess_tail.
+  - (* MTaskLock *)
+    destruct (np_tasklock _ _ Hnp) as [Hph Hph'].
+    destruct (s_tmu st (p_sess p)) eqn:Etm; [exact Iv|].
+    match goal with |- Inv ?s => apply (task_quiet_step st s a p (pop_same p MTaskLock r) Iv Hp) end; try reflexivity.
+    + rewrite Hph. reflexivity.
+    + proj. rewrite (phase_after_eq _ _ _ Hnp), Hph'. reflexivity.
+    + intros t0 Hne. proj. rewrite upd_other by exact Hne. auto.
+    + left. exact Etm.
+    + proj. rewrite (phase_after_eq _ _ _ Hnp). exact Hwr.
+    + unfold task_ok. proj. rewrite (phase_after_eq _ _ _ Hnp), Hph'. rewrite upd_same. split; [reflexivity|].
+      apply (i_tasks _ Iv _ Etm).
+    + proj. rewrite upd_same. discriminate.
+    + proj. rewrite Hr. apply uses_sess_tail.
+  - (* MTaskChoose *)
+    destruct (np_taskchoose _ _ Hnp) as [Hph Hph'].
+    unfold task_ok in Hta. rewrite Hph in Hta. destruct Hta as [Htm Htc].
+    match goal with |- Inv ?s => apply (task_quiet_step st s a p (pop p MTaskChoose r (p_cid p) (Some (s_tcnt st (p_sess p))) (p_last p) (p_child p) (p_cnt p)) Iv Hp) end; try reflexivity.
+    + rewrite Hph. reflexivity.
+    + proj. rewrite (phase_after_eq _ _ _ Hnp), Hph'. reflexivity.
+    + intros t0 Hne. proj. rewrite upd_other by exact Hne. auto.
+    + right. exact Htm.
+    + proj. rewrite (phase_after_eq _ _ _ Hnp). exact Hwr.
+    + unfold task_ok. proj. rewrite (phase_after_eq _ _ _ Hnp), Hph'. split; [exact Htm|].
+      exists (s_tcnt st (p_sess p)). rewrite upd_same. repeat split; try reflexivity. exact Htc.
+    + proj. rewrite Htm. discriminate.
+    + proj. rewrite Hr. apply uses_sess_tail.
+  - (* MTaskAppend *)
+    destruct (np_taskappend _ _ _ Hnp) as [Hph [Hph' Htt]].
+    unfold task_ok in Hta. rewrite Hph in Hta. destruct Hta as [Htm [n [Es [Hn Htc]]]].
+    rewrite Es.
+    set (f := mk_frame st (p_sess p) n t []).
+    assert (Hfk : fkind f = KTask) by (apply is_task_kind; exact Htt).
+    match goal with |- Inv ?s => apply (emit_step st s a p (pop p (MTaskAppend t) r (p_cid p) None (p_last p) (p_child p) (p_cnt p)) Iv Hp) end; try reflexivity.
+    + rewrite Hph. reflexivity.
+    + proj. rewrite (phase_after_eq _ _ _ Hnp), Hph'. reflexivity.
+    + intros c. unfold cnext. proj. apply snoc_other_kind. rewrite Hfk. discriminate.
+    + proj. lia.
+    + proj. apply Valid_snoc_intro; [apply (i_valid _ Iv)|]. rewrite Hfk. exact Hn.
+    + proj. rewrite (phase_after_eq _ _ _ Hnp). exact Hwr.
+    + intros b pb Hne Hb. apply (task_ok_other st _ b pb (p_sess p)); [apply (i_task _ Iv _ _ Hb)| | |].
+      * intros t0. destruct (N.eq_dec t0 (p_sess p)) as [->|Hne0]; [right; reflexivity|left].
+        unfold tnext. proj. apply snoc_same_kind_other. cbn [sid f mk_frame]. congruence.
+      * intros t0 _. proj. auto.
+      * intros Hth. apply (Hother b pb Hne Hb Hth). right. exact Htm.
+    + unfold task_ok. proj. rewrite (phase_after_eq _ _ _ Hnp), Hph'. split; [exact Htm|].
+      rewrite Htc. unfold tnext. proj.
+      pose proof (next_of_snoc_same f (s_log st)) as E. rewrite Hfk in E. cbn [sid f mk_frame] in E. rewrite E.
+      unfold tnext in Hn. rewrite Hn. reflexivity.
+    + intros t0 Ht0. proj_in Ht0. proj. assert (t0 <> p_sess p) by congruence.
+      unfold tnext. proj. rewrite snoc_same_kind_other by (cbn [sid f mk_frame]; congruence).
+      apply (i_tasks _ Iv _ Ht0).
+    + intros b pb _ Hb. apply (sess_ok_ext st); [|apply (i_sess _ Iv _ _ Hb)].
+      intros s0. unfold snext. proj. apply snoc_other_kind. rewrite Hfk. discriminate.
+    + intros Hu. proj. unfold snext. proj. rewrite snoc_other_kind by (rewrite Hfk; discriminate).
+      apply (i_sess _ Iv _ _ Hp). rewrite Hr. apply uses_sess_tail. exact Hu.
+    + proj. rewrite Hr. apply uses_sess_tail.
+  - (* MTaskUnlock *)
+    destruct (np_taskunlock _ _ Hnp) as [Hph Hph'].
+    unfold task_ok in Hta. rewrite Hph in Hta. destruct Hta as [Htm Htc].
+    match goal with |- Inv ?s => apply (task_quiet_step st s a p (pop_same p MTaskUnlock r) Iv Hp) end; try reflexivity.
+    + rewrite Hph. reflexivity.
+    + proj. rewrite (phase_after_eq _ _ _ Hnp), Hph'. reflexivity.
+    + intros t0 Hne. proj. rewrite upd_other by exact Hne. auto.
+    + right. exact Htm.
+    + proj. rewrite (phase_after_eq _ _ _ Hnp). exact Hwr.
+    + apply task_ok_idle. proj. rewrite (phase_after_eq _ _ _ Hnp), Hph'. reflexivity.
+    + proj. intros _. exact Htc.
+    + proj. rewrite Hr. apply uses_sess_tail.
+Qed.
+
+(* ---------- every micro-step, every schedule ---------- *)
+Lemma exec_m_inv st a p m r :
+  Inv st -> s_procs st a = Some p -> p_rem p = m :: r -> Inv (exec_m st a p m r).
+Proof.
+  intros Iv Hp Hr. pose proof (i_wf _ Iv _ _ Hp) as Hwf. rewrite Hr in Hwf.
+  destruct (wf_from_cons _ _ _ Hwf) as [ph' [Hnp Hwr]].
+  destruct m;
+    first [ apply (exec_m_inv_cont st a p _ r ph' Iv Hp Hr Hnp Hwr I)
+          | apply (exec_m_inv_emit st a p _ r ph' Iv Hp Hr Hnp Hwr I) ].
+Qed.
+
+Theorem step_inv st a : Inv st -> Inv (step st a).
+Proof.
+  intros Iv. unfold step, step_gen. destruct (s_procs st a) as [p|] eqn:Hp; [|exact Iv].
+  destruct (p_rem p) as [|m r] eqn:Hr; [exact Iv|]. apply (exec_m_inv st a p m r Iv Hp Hr).
+Qed.
+
+Theorem run_inv sched : forall st, Inv st -> Inv (run sched st).
+Proof.
+  induction sched as [|a r IH]; intros st Iv; rewrite ?run_nil, ?run_cons; [exact Iv|].
+  apply IH. apply step_inv. exact Iv.
+Qed.
